@@ -832,6 +832,80 @@ func (pe *panicEngine) emit(r *Report, rule string, filter func(o panicOb) bool)
 				}
 			}
 		}
+		if !done && len(pe.c.Overlay) > 0 && strings.Contains(o.Expr, "_inl") {
+			// in the normalised view a construct that a refactoring had moved into a new helper is back in the
+			// function it was reviewed in, with the helper's locals carrying an expansion suffix
+			stripped := inlSuffixRe.ReplaceAllString(o.Expr, "")
+			m := map[string]string{}
+			for _, full := range inlIdentRe.FindAllString(o.Expr, -1) {
+				m[inlSuffixRe.ReplaceAllString(full, "")] = full
+			}
+			for i, re := range pe.reviewed {
+				max := re.Max
+				if max == 0 {
+					max = 1
+				}
+				if re.Kind != o.Kind || re.Where != o.Where || used[i] >= max || re.Expr != stripped {
+					continue
+				}
+				okNeeds := true
+				for _, nd := range re.Needs {
+					if o.needs == nil || !(o.needs(renameIdents(nd, m)) || o.needs(nd)) {
+						okNeeds = false
+					}
+				}
+				if !okNeeds {
+					continue
+				}
+				used[i]++
+				r.OK(ru, o.Where, stripped, pos, "reviewed (construct back in place after expanding a new helper): "+re.Reason)
+				done = true
+				break
+			}
+		}
+		if !done {
+			// fourth chance: the function the entry was reviewed in is gone, and on the pinned tree it had
+			// exactly one caller - the function this obligation sits in (inline-method). The construct must
+			// be the same (up to renamed locals) and the entry's guards must hold at it.
+			for i, re := range pe.reviewed {
+				max := re.Max
+				if max == 0 {
+					max = 1
+				}
+				if re.Kind != o.Kind || used[i] >= max || re.Where == o.Where {
+					continue
+				}
+				pk, nm := splitDisplayName(re.Where)
+				if nm == "" || pe.c.funcByName(pk, nm) != nil {
+					continue
+				}
+				caller := frozenSoleCaller(pk, nm)
+				if caller == "" || pk+"."+caller != o.Where {
+					continue
+				}
+				m := map[string]string{}
+				if re.Expr != o.Expr {
+					var okM bool
+					m, okM = renameMatchLoose(re.Expr, o)
+					if !okM {
+						continue
+					}
+				}
+				okNeeds := true
+				for _, nd := range re.Needs {
+					if o.needs == nil || !o.needs(renameIdents(nd, m)) {
+						okNeeds = false
+					}
+				}
+				if !okNeeds {
+					continue
+				}
+				used[i]++
+				r.OK(ru, o.Where, o.Expr, pos, "reviewed (construct of "+re.Where+", which was folded into its only caller): "+re.Reason)
+				done = true
+				break
+			}
+		}
 		if done {
 			continue
 		}
@@ -1031,6 +1105,16 @@ func rv(kind, where, expr string, max int, reason string, needs ...string) revie
 // expression up to a consistent, injective renaming of local variables. The
 // renamed-away names must no longer be declared in the enclosing function.
 func renameMatch(entry string, o panicOb) (map[string]string, bool) {
+	return renameMatchOpt(entry, o, true)
+}
+
+// renameMatchLoose: as renameMatch, for a construct that arrived from another
+// function: its old local names were never declared here.
+func renameMatchLoose(entry string, o panicOb) (map[string]string, bool) {
+	return renameMatchOpt(entry, o, false)
+}
+
+func renameMatchOpt(entry string, o panicOb, requireGone bool) (map[string]string, bool) {
 	act, ok := o.node.(ast.Expr)
 	if !ok || o.info == nil || o.outer == nil {
 		return nil, false
@@ -1115,6 +1199,9 @@ func renameMatch(entry string, o panicOb) (map[string]string, bool) {
 			gone[a] = true
 		}
 	}
+	if !requireGone {
+		return m, true
+	}
 	if !renamed {
 		return nil, false
 	}
@@ -1148,6 +1235,9 @@ func renameIdents(s string, m map[string]string) string {
 		return t
 	})
 }
+
+var inlSuffixRe = regexp.MustCompile(`(_arg)?_inl\d+`)
+var inlIdentRe = regexp.MustCompile(`[A-Za-z_][A-Za-z0-9_]*?(_arg)?_inl\d+`)
 
 // extractedFrom: when the obligation sits in an unexported function or method
 // all of whose calls come from one top-level function F of the same package
